@@ -23,6 +23,7 @@ EXPLANATION = (
     'state constants are mutually consistent (compile-time witnesses); D6 the queue of the queuing mutexes is entered only by '
     'the single exchange/CAS on q_tail.  Mutual exclusion over all interleavings of the queuing_rw_mutex state machine and FIFO '
     'fairness are NOT decided.')
+EXPLANATION += ' Added after the seeded-change rounds: ' + "D6 also: a function that enqueues its node by an RMW on q_tail and then waits for the node's grant flag has cleared that flag on every path before the RMW."
 ASSUMPTIONS = ['C++11 memory model lower bounds', 'witnesses compiled with -fno-access-control to read private constants']
 ND = ['mutual exclusion over all interleavings of the queuing_rw_mutex state machine', 'FIFO fairness as a history property',
       'absence of lost hand-off beyond the checked orders']
